@@ -297,6 +297,13 @@ C11_ReleasedAtEnd(x) ==
     \A i \in 1..Len(x.pre.shards) : LET sh == x.pre.shards[i] IN
         (sh.status = SCompleted /\ ShardPaidEnd(sh) < x.post.h) => ~HasShard(x.post, sh.id)
 
+\* C12: within its lifetime a handed-over order always accounts for every paid replica: each is stored, being
+\* stored (waiting for its current assignee) or was cancelled with the replica count reduced and refunded
+LiveShards(s, o) == SelectSeq(o.shards, LAMBDA id : HasShard(s, id) /\ ShardOf(s, id).status \in {SWaiting, SCompleted})
+C12_ReplicasAccounted(s) ==
+    \A i \in 1..Len(s.orders) : LET o == s.orders[i] IN
+        (o.status \in {ODataReady, OCompleted} /\ o.op \in {1, 2} /\ s.h <= o.created + o.dur) => Len(LiveShards(s, o)) = o.replica
+
 \* C12: the timeout machinery leaves fully stored orders alone
 FullyStored(s, o) ==
     o.status = OCompleted /\ \A j \in 1..Len(o.shards) : HasShard(s, o.shards[j]) => ShardOf(s, o.shards[j]).status \in {SCompleted, SMigrating}
